@@ -33,15 +33,54 @@ fn main() {
         }
     };
     println!("KNOWN 1");
+    // the glue creates its data directory: keep that inside a scratch directory
+    let dir = std::env::temp_dir().join(format!("sreplay-{}", std::process::id()));
+    let _ = std::fs::create_dir_all(&dir);
+    let _ = std::env::set_current_dir(&dir);
+    if args[2] == "--search" {
+        // sreplay <harness> --search <seed> <budget> <obligation>...: generate inputs until one
+        // fails one of the named obligations natively; print its draws
+        let seed: u64 = args[3].parse().expect("seed");
+        let budget: u64 = args[4].parse().expect("budget");
+        let wanted: Vec<&str> = args[5..].iter().map(|s| s.as_str()).collect();
+        let mut found = false;
+        for i in 0..budget {
+            native::reset();
+            rusqlite::reset_for_replay();
+            vk::model::reset_globals();
+            let mut pool = Pool::searching(seed.wrapping_mul(0x9E3779B97F4A7C15).wrapping_add(i.wrapping_mul(0xD1B54A32D192ED03)));
+            let r = std::panic::catch_unwind(std::panic::AssertUnwindSafe(|| f(&mut pool)));
+            let assume_failed = native::ASSUME_FAILED.with(|x| *x.borrow());
+            if assume_failed || (r.is_err()) {
+                continue;
+            }
+            let hit = native::FAILS.with(|x| x.borrow().iter().any(|s| wanted.iter().any(|w| w == s)));
+            if hit {
+                println!("FOUND {}", i);
+                for v in pool.trace.iter() {
+                    println!("VALS {}", v.iter().map(|b| b.to_string()).collect::<Vec<_>>().join(" "));
+                }
+                native::FAILS.with(|x| {
+                    for s in x.borrow().iter() {
+                        println!("FAIL {}", s);
+                    }
+                });
+                found = true;
+                break;
+            }
+        }
+        if !found {
+            println!("NOTFOUND");
+        }
+        let _ = std::env::set_current_dir("/");
+        let _ = std::fs::remove_dir_all(&dir);
+        return;
+    }
     let txt = std::fs::read_to_string(&args[2]).expect("values file");
     let vals: Vec<Vec<u8>> = txt
         .lines()
         .map(|l| l.split_whitespace().map(|x| x.parse::<u8>().expect("byte")).collect())
         .collect();
-    // the glue creates its data directory: keep that inside a scratch directory
-    let dir = std::env::temp_dir().join(format!("sreplay-{}", std::process::id()));
-    let _ = std::fs::create_dir_all(&dir);
-    let _ = std::env::set_current_dir(&dir);
     native::reset();
     let mut pool = Pool::from_vals(vals);
     let r = std::panic::catch_unwind(std::panic::AssertUnwindSafe(|| f(&mut pool)));
